@@ -231,7 +231,7 @@ func collectRoutes(p *core.Prog, includeNext bool) (routes []route, sites int) {
 			case c.Key == kHTTPRegister:
 				rt.kind = "registrar"
 				methV, patV, hV = c.Arg(0), c.Arg(1), c.Arg(2)
-			case !c.Common.IsInvoke() && c.Common.StaticCallee() == nil && core.NamedKey(c.Common.Value.Type()) == tRegisterFunc:
+			case !c.Common.IsInvoke() && core.Callee(c.Common) == nil && core.NamedKey(c.Common.Value.Type()) == tRegisterFunc:
 				rt.kind = "registrar"
 				methV, patV, hV = c.Arg(0), c.Arg(1), c.Arg(2)
 			default:
